@@ -133,8 +133,8 @@ def is_logger_call(e):
 
 
 def substitution_loops(F, E, root_fn):
-    """[(function, for-statement)]: the loops reachable from root_fn (R_::processRequest / R_::initialEnter) whose body applies an
-    outstanding request (calls R_::applyRequest). The loop may live in the entry function itself or in a helper it calls."""
+    """[(function, loop statement)]: the loops reachable from root_fn (R_::processRequest / R_::initialEnter) whose iterations are guard
+    rounds. The loop may live in the entry function itself or in a helper it calls."""
     out = []
     seen = set()
     for g in [root_fn] + list(E.calls_star(root_fn).values()):
@@ -143,8 +143,19 @@ def substitution_loops(F, E, root_fn):
         seen.add(g.id)
         for st in ir.walk_stmts(g.body):
             if st.get('s') in ('for', 'while', 'do'):
-                calls = [x for t in ir.walk_stmts(st.get('body')) for e in ir.stmt_exprs(t) for x in ir.walk(e) if x['k'] == 'call' and x.get('m') == 'applyRequest']
-                if calls:
+                # the loop whose iterations are guard rounds: its body constructs a GuardControl or calls a root-class function that does
+                # (whether the request is applied through a helper named applyRequest or by statements written out in the loop)
+                hit = False
+                for t in ir.walk_stmts(st.get('body')):
+                    for e in ir.stmt_exprs(t):
+                        for x in ir.walk(e):
+                            if x['k'] == 'ctor' and (x.get('cls') or '').startswith('ffsm2::detail::GuardControlT<') and not (x.get('cls') or '').endswith('::Lock'):
+                                hit = True
+                            elif x['k'] == 'call' and x.get('fn') is not None:
+                                h = F.fn(x['fn'])
+                                if h is not None and h.tkey in ROOT_TKEYS and (constructs_guard_control(F, h) or any(constructs_guard_control(F, k) for k in E.calls_star(h).values())):
+                                    hit = True
+                if hit:
                     out.append((g, st))
     return out
 
@@ -276,3 +287,26 @@ def guard_round_sites(F, E, fn, c):
                     out.append(n)
                     break
     return out
+
+
+def through_forwarders(F, fn, depth=0):
+    """the function that carries the body: if fn is a pure forwarding wrapper -- its body is a single `return g(p0, p1, ...);` or
+    `g(p0, p1, ...);` handing its own parameters on in order to a non-public member of the same class -- the callee (recursively)"""
+    if depth > 3 or fn.body is None:
+        return fn
+    stmts = [s for s in (fn.body.get('b') or []) if s.get('s') != 'null'] if fn.body.get('s') == 'block' else [fn.body]
+    if len(stmts) != 1 or stmts[0].get('s') not in ('ret', 'expr') or not ir.is_expr(stmts[0].get('e')):
+        return fn
+    e = ir.strip(stmts[0]['e'])
+    if e['k'] != 'call' or e.get('fn') is None or e.get('op'):
+        return fn
+    g = F.fn(e['fn'])
+    if g is None or g.body is None or g.tkey != fn.tkey or not is_internal_helper(F, g) or len(g.params) != len(fn.params):
+        return fn
+    if ir.is_expr(e.get('obj')) and ir.strip(e['obj'])['k'] not in ('this',) and not (ir.strip(e['obj'])['k'] == 'un' and ir.strip(e['obj'])['op'] == '*'):
+        return fn
+    for i, a in enumerate(e.get('args', [])):
+        x = ir.strip(a)
+        if not (x['k'] == 'var' and x.get('vk') == 'param' and x.get('pi') == i):
+            return fn
+    return through_forwarders(F, g, depth + 1)
